@@ -440,3 +440,21 @@ def main(prop, tier):
     ex = traces[-1]["steps"]
     run.sample({"calls": [s["i"] for s in ex[:6]]})
     return run.finish()
+
+
+def replay(path):
+    with open(path) as f:
+        doc = json.load(f)
+    rp = doc["replay"]
+    if "history" not in rp:
+        print(f"replay file {path} carries no history; finding was: {doc.get('what')}")
+        return common.EXIT_MACHINERY
+    calls = [{k: v for k, v in c.items() if k not in ("ok", "start", "stop", "ratio", "ret", "exc")} for c in rp["history"]]
+    tr = {"cfg": {"replay": 1}, "steps": run_history(calls)}
+    fails = tracecheck.validate("MemoryMap_Trace", "Mm", [tr])
+    if fails:
+        print(f"VIOLATION property={doc['property']} replay={path}\n  what: still rejected at call {fails[0]['t']}, "
+              f"clause {fails[0]['err']}")
+        return common.EXIT_VIOLATION
+    print(f"replay of {path}: accepted by the specification on this tree ({len(calls)} calls)")
+    return common.EXIT_OK
